@@ -131,6 +131,23 @@ CLAIMED["C11"] = {
     "design_ref": "DESIGN.md §3 C11",
 }
 
+CLAIMED["C17"] = {
+    "text": "Lean theorems for all inputs: scalars are wrapped into one-item lists however set (mapping, constructor, "
+            "update, through the Feature); the always_return_list switch changes only the view of one-item lists and "
+            "never the store; text-level JSON round trip (model of simplejson dumps/loads incl. \\uXXXX escapes and "
+            "surrogate pairs) with key order for every Unicode mapping with distinct keys and for the extra list; "
+            "merge_attributes returns the uniquely determined sorted duplicate-free union with keys a1 ++ new(a2), in "
+            "numeric or string order, for dict and Attributes arguments; ==, != and hash are those of the printed line. "
+            "Correspondence: JSON text byte for byte over every code point, decode of generated and hand-written JSON, "
+            "merge_attributes under both switch settings; oracle: stdlib json, Fraction arithmetic, set algebra, "
+            "before/after snapshots of the arguments, a database round trip. Four defects of this family were repaired.",
+    "note": "Trusted: Lean kernel + standard axioms; hand-written models of simplejson 4.1's text form and of float() on "
+            "decimals of at most 15 digits (validated, not verified); inf/nan/exponents/underscores and lone surrogates "
+            "are outside the modelled grammar; tuples inside merge_attributes arguments unmodelled.",
+    "technique": "Lean 4 theorems (well-founded JSON parser round trip, dict-fold invariants) + differential correspondence",
+    "design_ref": "DESIGN.md §3 C17",
+}
+
 PENDING_REASON = "check not built yet in this round of work (planned: DESIGN.md §3); nothing is claimed for it"
 
 
